@@ -287,6 +287,85 @@ fn tname(i: usize) -> String {
     format!("t{}", "1".repeat(i + 1))
 }
 
+/// One invocation that executes the same command twice for the same target (named twice, or once
+/// through a sequence and once with -c); the executions write different amounts.
+#[derive(Debug, Clone, Serialize, Deserialize)]
+pub struct RepeatCase {
+    /// 0: `-c c0 c1 c0`; 1: `-s ci -c c0` with ci = [c0, c1]
+    pub form: u8,
+    /// bytes written per stream by the first execution of c0 (the later ones write one short line)
+    pub first_bytes: usize,
+    /// the later execution writes more than the first instead of less
+    pub growing: bool,
+}
+
+pub fn repeat_cases() -> Vec<RepeatCase> {
+    vec![
+        RepeatCase { form: 0, first_bytes: 300_000, growing: false },
+        RepeatCase { form: 1, first_bytes: 300_000, growing: false },
+        RepeatCase { form: 1, first_bytes: 2_000, growing: false },
+        RepeatCase { form: 0, first_bytes: 150_000, growing: true },
+    ]
+}
+
+pub fn check_repeat(case: &RepeatCase, w: usize) -> CheckResult {
+    let t = tname(0);
+    let mut cfg = ConfigSpec { targets: vec![TargetSpec::new(&t)], ..Default::default() };
+    if case.form == 1 {
+        cfg.sequences.insert("ci".into(), vec!["c0".into(), "c1".into()]);
+    }
+    let mut env = Env::new(w);
+    env.install_config(&cfg);
+    let big = |tag: u32| vec![Step::F { total: case.first_bytes, line: 77, tag }];
+    let small = |s: &str| vec![Step::W(format!("{} of a later execution\n", s).into_bytes())];
+    let (first_out, first_err, later_out, later_err) = if case.growing {
+        (small("out"), small("err"), big(1), big(2))
+    } else {
+        (big(1), big(2), small("out"), small("err"))
+    };
+    let mut beh = BTreeMap::new();
+    beh.insert(
+        ("c0".to_string(), t.clone()),
+        Behavior { out: first_out.clone(), err: first_err.clone(), out_later: later_out.clone(), err_later: later_err.clone(), ..Default::default() },
+    );
+    beh.insert(("c1".to_string(), t.clone()), Behavior { out: small("c1"), ..Default::default() });
+    bb::install_simple(&env, &cfg, &beh);
+    let args: Vec<&str> = if case.form == 1 { vec!["run", "-s", "ci", "-c", "c0"] } else { vec!["run", "-c", "c0", "c1", "c0"] };
+    let out = env.mr(&args);
+    let Some(doc) = out.json().filter(|_| out.ok()) else {
+        return inconclusive(format!("the run with a repeated command did not succeed: {}", out.brief()));
+    };
+    let run = bb::parse_run(&doc).map_err(|e| Violation::new("c08.output", e))?;
+    let starts = env.traces().iter().filter(|tr| bb::trace_key(&env, tr).0 == "c0").count();
+    if starts != 2 {
+        return inconclusive(format!("c0 was executed {} times, not twice", starts));
+    }
+    let run_path = std::path::PathBuf::from(&run.run_path);
+    for (stream, first, later) in [("stdout", &first_out, &later_out), ("stderr", &first_err, &later_err)] {
+        let got = match bb::stored_log(&run_path, "c0", &t, stream) {
+            Ok(g) => g,
+            Err(e) => {
+                return viol(
+                    "c08.repeat.decode",
+                    format!("the stored {} of a command executed twice in one invocation does not decompress: {}", stream, e),
+                )
+            }
+        };
+        // either execution's bytes would be 'exactly what the process wrote'; a mixture is not
+        if got != bb::script_bytes(later) && got != bb::script_bytes(first) {
+            return viol(
+                "c08.repeat.bytes",
+                format!("the stored {} of a command executed twice ({} bytes) is what neither execution wrote ({} / {} bytes)", stream, got.len(), bb::script_bytes(first).len(), bb::script_bytes(later).len()),
+            );
+        }
+    }
+    let show = env.mr(&["log", "show", "--stdout", "--stderr"]);
+    if !show.ok() {
+        return viol_obs("c08.repeat.logshow.failed", "log show fails after a run that executed one command twice".into(), show.brief());
+    }
+    Ok(CaseInfo::new(true).class("same-command-executed-twice-in-one-invocation").inv(env.invocations))
+}
+
 pub fn check_cli(case: &Case, w: usize) -> CheckResult {
     let ntasks = case.streams.len() / 2;
     let cfg = ConfigSpec {
@@ -404,11 +483,11 @@ pub fn many_streams() -> Vec<Case> {
 }
 
 /// Megabytes written at once (far more than a pipe buffer, within one flush interval): as lines,
-/// and as one unterminated line; sizes just above 1, 2, 4, 8, 16 MiB (thorough: up to 64 MiB).
+/// and as one unterminated line; sizes just above 1, 2, 4, 8, 16 MiB (thorough: up to 32 MiB).
 pub fn volume_cases(thorough: bool) -> Vec<Case> {
     let mib = 1usize << 20;
     let sizes: Vec<usize> = if thorough {
-        vec![mib + 1, 2 * mib + 3, 4 * mib, 4 * mib + 4096, 8 * mib + 1, 16 * mib + 17, 32 * mib + 5, 64 * mib + 9]
+        vec![mib + 1, 2 * mib + 3, 4 * mib, 4 * mib + 4096, 8 * mib + 1, 16 * mib + 17, 32 * mib + 5]
     } else {
         vec![mib + 1, 4 * mib + 4096, 16 * mib + 17]
     };
@@ -450,7 +529,9 @@ pub fn golden() -> Vec<Case> {
 }
 
 pub fn run(ctx: &mut Ctx) {
-    ctx.rule = "1-4 concurrent tasks = 2-8 streams (plus fixed in-process cases with 63-320 tasks), each a script of writes (short lines, partial lines, lines > 8 KiB and > 64 KiB, 130-600 KB of poorly compressible text or binary (several zstd blocks), no final newline, binary with NUL/CR/invalid UTF-8/escape bytes, 1-16 MiB (thorough 64 MiB) at once, bare \
+    // (the volume cases move up to 100 MiB through a debug build)
+    ctx.hang_limit = std::time::Duration::from_secs(900);
+    ctx.rule = "1-4 concurrent tasks = 2-8 streams (plus fixed in-process cases with 63-320 tasks), each a script of writes (short lines, partial lines, lines > 8 KiB and > 64 KiB, 130-600 KB of poorly compressible text or binary (several zstd blocks), no final newline, binary with NUL/CR/invalid UTF-8/escape bytes, 1-16 MiB (thorough 32 MiB) at once, bare \
 newlines, multi-line chunks, CRLF, unicode) and pauses biased around the 500 ms flush interval (499/500/501/700/1000/1200, mid-line included). in-process: the real process_reader + Compressor through the capture hook \
 under tokio's paused clock with a seeded select order; real time: the same scripts executed by helper processes under `monorail run`, files located through the result document, `log show` parsed into blocks. \
 oracle: every stored .zst decodes to exactly the concatenation of that stream's writes; log show prints exactly one header per non-empty log followed by those bytes. \
@@ -464,14 +545,21 @@ non-trivial = a pause >= 500 ms inside a line, a line > 64 KiB, binary data, or 
     ctx.drive_all("many-streams-inproc", many_streams(), "255-640 streams on one compressor (around 128 and 256 streams per thread)", check_inproc);
     let n = ctx.n(3000, 200_000);
     ctx.drive("inproc", || strategy(4, 10), n, check_inproc);
-    ctx.drive_all("volume-inproc", volume_cases(ctx.thorough()), "1-16 MiB (thorough: 64 MiB) written at once, as 100-byte lines and as one unterminated line", check_inproc);
+    ctx.drive_all("volume-inproc", volume_cases(ctx.thorough()), "1-16 MiB (thorough: 32 MiB) written at once, as 100-byte lines and as one unterminated line", check_inproc);
     ctx.drive_all("golden-cli", golden(), "golden regression cases (real time)", check_cli);
-    ctx.drive_all("volume-cli", volume_cases(ctx.thorough()), "1-16 MiB (thorough: 64 MiB) written at once by a helper process", check_cli);
+    ctx.drive_all("repeated-command-cli", repeat_cases(), "one invocation executing the same command twice for a target (-c c0 c1 c0, or a sequence plus -c), the executions writing 2 KB-300 KB and one line", check_repeat);
+    ctx.drive_all("volume-cli", volume_cases(ctx.thorough()), "1-16 MiB (thorough: 32 MiB) written at once by a helper process", check_cli);
     let n2 = ctx.n(80, 500);
     ctx.drive("cli", || strategy(3, 6), n2, check_cli);
 }
 
 pub fn replay(ctx: &Ctx, label: &str, case: Value) -> Result<(), String> {
+    if label.contains("repeated-command") {
+        let rc: RepeatCase = serde_json::from_value(case).map_err(|e| e.to_string())?;
+        let r = check_repeat(&rc, 0);
+        ctx.replay_one(label, &rc, r);
+        return Ok(());
+    }
     let c: Case = serde_json::from_value(case).map_err(|e| e.to_string())?;
     let r = if label.contains("cli") { check_cli(&c, 0) } else { check_inproc(&c, 0) };
     ctx.replay_one(label, &c, r);
